@@ -3285,7 +3285,7 @@ func (t *Terminal) printHighlighted(result Result, colBase tui.ColorPair, colMat
 				}
 			}
 			if t.hscroll {
-				if t.keepRight && pos == nil {
+				if t.keepRight && pos == nil && len(matchOffsets) == 0 {
 					trimmed, diff := t.trimLeft(line, maxWidth-ellipsisWidth)
 					transformOffsets(diff, false)
 					line = append(ellipsis, trimmed...)
